@@ -96,7 +96,7 @@ inductive Res where
   | gerr                     -- GrammarError
   | fail                     -- ParseError
   | ok (ms : List Match)     -- matches, in yield order
-deriving Repr, Inhabited
+deriving Repr, Inhabited, DecidableEq
 
 def stops (ms : List Match) : List Nat := ms.map (·.stop)
 
